@@ -250,15 +250,18 @@ def findPair (idx : Expr) : List Expr → Option Expr
   | k :: v :: rest => if k == idx then some (.node .tuple [k, v]) else findPair idx rest
   | _ => none
 
-/-- `Indexable for Expression::index`; `n as usize` wraps modulo 2^64. -/
+/-- `usize::try_from(n).ok()?` then `get`: a position the sequence has, or nothing. -/
+def nth? (xs : List Expr) (n : Int) : Option Expr := if n < 0 then none else xs[n.toNat]?
+
+/-- `Indexable for Expression::index`. -/
 def index (x idx : Expr) : Option Expr :=
   match x with
   | .node .map kvs => findPair idx kvs
-  | .node .list xs => do let n ← idx.asNumber?; xs[(asUsize n).toNat]?
+  | .node .list xs => do let n ← idx.asNumber?; nth? xs n
   | .node .tuple [a, b] => do
     let n ← idx.asNumber?
     if n = 0 then some a else if n = 1 then some b else none
-  | .node (.struct _) fields => do let n ← idx.asNumber?; fields[(asUsize n).toNat]?
+  | .node (.struct _) fields => do let n ← idx.asNumber?; nth? fields n
   | _ => none
 
 def indexOrErr (x idx : Expr) : Outcome Expr :=
